@@ -294,6 +294,8 @@ func runRT(d directive, r *rand.Rand) {
 				rtOnce(d, v, api, via, i)
 			}
 		}
+		// all dumps of this kind are taken: now load them
+		flushLoads()
 	}
 	// DumpToHTTPRequest belongs to the format driven vectors
 	if d.C == none {
@@ -305,11 +307,28 @@ func runRT(d directive, r *rand.Rand) {
 	}
 }
 
+// pendingLoads holds the load halves of round trips whose dumps were all taken first: every dump of a group
+// is produced before the first one is loaded, so a dump that aliases memory reused by a later dump is seen.
+var pendingLoads []func()
+
+func flushLoads() {
+	for _, f := range pendingLoads {
+		f()
+	}
+	pendingLoads = nil
+}
+
 func rtOnce(d directive, v value, api, via string, i int) {
 	ev := event{"e": "rt", "api": api, "f": d.F, "c": d.C, "dser": d.Dser, "kind": v.kind, "via": via,
 		"dok": false, "id": -1, "inner": -1, "lok": false, "lraw": false, "lfmt": -1, "want": v.want, "got": ""}
-	guard(ev, func() {
-		var blob []byte
+	var blob []byte
+	dumped := false
+	func() {
+		defer func() {
+			if p := recover(); p != nil {
+				ev["panic"] = fmt.Sprint(p)
+			}
+		}()
 		var err error
 		switch {
 		case api == "compress":
@@ -325,44 +344,54 @@ func rtOnce(d directive, v value, api, via string, i int) {
 			return
 		}
 		ev["dok"] = true
-		ev["blob"] = hex.EncodeToString(blob)
-		id, n := leadID(blob)
-		ev["id"] = id
-		if api == "compress" && id == fGZIP {
-			if inner, ok := gunzip(blob[n:]); ok {
-				ev["inner"], _ = leadID(inner)
+		dumped = true
+	}()
+	if !dumped {
+		emit(ev)
+		return
+	}
+	pendingLoads = append(pendingLoads, func() {
+		guard(ev, func() {
+			var err error
+			ev["blob"] = hex.EncodeToString(blob)
+			id, n := leadID(blob)
+			ev["id"] = id
+			if api == "compress" && id == fGZIP {
+				if inner, ok := gunzip(blob[n:]); ok {
+					ev["inner"], _ = leadID(inner)
+				}
 			}
-		}
-		t := v.fresh()
-		var lf uint8
-		switch via {
-		case "load":
-			lf, err = dsd.Load(blob, t)
-		case "decomp":
-			if id < 0 || id > 255 {
-				return
+			t := v.fresh()
+			var lf uint8
+			switch via {
+			case "load":
+				lf, err = dsd.Load(blob, t)
+			case "decomp":
+				if id < 0 || id > 255 {
+					return
+				}
+				lf, err = dsd.DecompressAndLoad(blob[n:], u8(id), t)
+			case "asformat":
+				if id < 0 || id > 255 {
+					return
+				}
+				lf = u8(id)
+				err = dsd.LoadAsFormat(blob[n:], u8(id), t)
 			}
-			lf, err = dsd.DecompressAndLoad(blob[n:], u8(id), t)
-		case "asformat":
-			if id < 0 || id > 255 {
-				return
+			ev["lfmt"] = int(lf)
+			switch {
+			case err == nil:
+				ev["lok"] = true
+				ev["got"] = canon(t)
+			case errors.Is(err, dsd.ErrIsRaw):
+				ev["lraw"] = true
+				if api == "dump" {
+					ev["got"] = canon(blob[n:]) // the caller takes the bytes behind the identifier
+				}
+			default:
+				ev["lerr"] = err.Error()
 			}
-			lf = u8(id)
-			err = dsd.LoadAsFormat(blob[n:], u8(id), t)
-		}
-		ev["lfmt"] = int(lf)
-		switch {
-		case err == nil:
-			ev["lok"] = true
-			ev["got"] = canon(t)
-		case errors.Is(err, dsd.ErrIsRaw):
-			ev["lraw"] = true
-			if api == "dump" {
-				ev["got"] = canon(blob[n:]) // the caller takes the bytes behind the identifier
-			}
-		default:
-			ev["lerr"] = err.Error()
-		}
+		})
 	})
 }
 
